@@ -513,4 +513,343 @@ theorem advance_poolInvD {s : St} {d : Nat} (hI : PoolInvD s d) (b e : Nat) (he 
     rw [weekSum_extend (fun w hw => (hpz w hw).2) (hle W' hW')]
     exact hI.coll W hW
 
+/-! ### endpoints -/
+
+theorem payRewardIf_poolInvD {s s' : St} {k : Kind} {u boosted d : Nat}
+    (hI : PoolInvD s (d + (if s.kind = k then boosted else 0)))
+    (h : payRewardIf s k u 0 boosted = some s') : PoolInvD s' d := by
+  unfold payRewardIf at h
+  split at h
+  · rename_i hk
+    rw [if_pos hk] at hI
+    exact payReward_poolInvD hI h
+  · rename_i hk
+    rw [if_neg hk] at hI
+    simp only [Option.some.injEq] at h
+    subst h
+    exact hI
+
+theorem claimTail_poolInvD {s s' : St} {c : Bool} {u base boosted d : Nat}
+    (hI : PoolInvD s (d + boosted)) (h : claimTail s c u base boosted = some s') : PoolInvD s' d := by
+  unfold claimTail at h
+  split at h
+  · simp only [Option.bind_eq_some_iff] at h
+    obtain ⟨s1, h1, h2⟩ := h
+    exact updateEnergyAndProgress_poolInvD (compoundMove_poolInvD hI h1) h2
+  · exact payReward_poolInvD hI h
+
+theorem enterCore_poolInv {s s' : St} {caller orig tokenTo amt : Nat} {extra : List (Nat × Nat)}
+    {o : Out} (hI : PoolInv s) (h : enterCore s caller orig tokenTo amt extra = some (s', o)) :
+    PoolInv s' := by
+  simp only [enterCore, Option.bind_eq_bind, Option.bind_eq_some_iff, req_eq_some, Option.pure_def,
+    Option.some.injEq, Prod.mk.injEq] at h
+  obtain ⟨_, _, s0, h0, ⟨s1, boosted⟩, h1, s1', h1', _, hact, s2, h2, ⟨s4, c1⟩, h4, merged, hm,
+    ⟨s5, n⟩, h5, s6, h6, s8, h8, s9, h9, rfl, rfl⟩ := h
+  have k0 : s0.kind = s.kind := takePayments_kind h0
+  have k1 : s1.kind = s.kind := (claimOnlyBoostedPayment_kind h1).trans k0
+  have k1' : s1'.kind = s.kind := (payRewardIf_kind h1').trans k1
+  have k2 : s2.kind = s.kind := (checkAndUpdate_kind h2).trans k1'
+  have k4 : s4.kind = s.kind := (generate_kind h4).trans k2
+  have k5 : s5.kind = s.kind := (createToken_kind h5).trans k4
+  have k6 : s6.kind = s.kind := (setFarmSupplyWeek_kind h6).trans k5
+  have i0 : PoolInvD (addFarming s0 amt) 0 := (hI.toD.of_view (takePayments_plv h0)).of_view rfl
+  have i1 := claimOnlyBoostedPayment_poolInvD i0 h1
+  have hsplit : 0 + boosted =
+      (0 + (if s.kind = .mint then boosted else 0)) + (if s1.kind = .noMint then boosted else 0) := by
+    rw [k1]; cases s.kind <;> simp
+  rw [hsplit] at i1
+  have i1' := payRewardIf_poolInvD i1 h1'
+  have i2 := i1'.of_view (checkAndUpdate_plv h2)
+  have i3 : PoolInvD (increaseUser s2 orig amt) _ := i2.of_view rfl
+  have i4 := generate_poolInvD i3 h4
+  have i5 := i4.of_view (createToken_plv h5)
+  have i6 := setFarmSupplyWeek_poolInvD i5 h6
+  have i7 : PoolInvD (Cache.drop s6 { c1 with supply := c1.supply + amt }) _ := i6.of_view rfl
+  have k7 : (Cache.drop s6 { c1 with supply := c1.supply + amt }).kind = s.kind := k6
+  rw [← k7] at i7
+  have i8 := payRewardIf_poolInvD i7 h8
+  exact (updateEnergyAndProgress_poolInvD i8 h9).toInv
+
+theorem claimCore_poolInv {s s' : St} {caller orig : Nat} {pays : List (Nat × Nat)} {cmp : Bool}
+    {o : Out} (hI : PoolInv s) (h : claimCore s caller orig pays cmp = some (s', o)) : PoolInv s' := by
+  unfold claimCore at h
+  replace h := bpeel h; obtain ⟨⟨n1, a1⟩, hhead, h⟩ := h
+  replace h := bpeel h; obtain ⟨s0, h0, h⟩ := h
+  replace h := bpeel h; obtain ⟨_, _, h⟩ := h
+  replace h := bpeel h; obtain ⟨_, _, h⟩ := h
+  replace h := bpeel h; obtain ⟨at1, hat, h⟩ := h
+  replace h := bpeel h; obtain ⟨⟨s1, c1⟩, h1, h⟩ := h
+  replace h := bpeel h; obtain ⟨part, hpart, h⟩ := h
+  replace h := bpeel h; obtain ⟨⟨s2, boosted⟩, h2, h⟩ := h
+  replace h := bpeel h; obtain ⟨res, _, h⟩ := h
+  replace h := bpeel h; obtain ⟨s3, h3, h⟩ := h
+  replace h := bpeel h; obtain ⟨merged, hm, h⟩ := h
+  replace h := bpeel h; obtain ⟨⟨s5, n⟩, h5, h⟩ := h
+  replace h := bpeel h; obtain ⟨s6, h6, h⟩ := h
+  replace h := bpeel h; obtain ⟨s8, h8, h⟩ := h
+  simp only [Option.pure_def, Option.some.injEq, Prod.mk.injEq] at h
+  obtain ⟨rfl, _⟩ := h
+  have i0 := hI.toD.of_view (takePayments_plv h0)
+  have i1 := generate_poolInvD i0 h1
+  have i2 := claimBoostedYields_poolInvD i1 h2
+  have i3 := i2.of_view (checkAndUpdate_plv h3)
+  have i5 := createToken_plv h5
+  dsimp only at i5 h6 h8
+  have i5' : PoolInvD s5 (0 + boosted) := by
+    refine i3.of_view (i5.trans ?_)
+    cases cmp <;> rfl
+  have i6 := setFarmSupplyWeek_poolInvD i5' h6
+  exact (claimTail_poolInvD (s := Cache.drop s6 _) (i6.of_view rfl) h8).toInv
+
+theorem exitFarm_poolInv {s s' : St} {caller : Nat} {opt : Option Nat} {n a : Nat} {o : Out}
+    (hI : PoolInv s) (h : exitFarm s caller opt n a = some (s', o)) : PoolInv s' := by
+  unfold exitFarm at h
+  replace h := bpeel h; obtain ⟨orig, _, h⟩ := h
+  replace h := bpeel h; obtain ⟨s0, h0, h⟩ := h
+  replace h := bpeel h; obtain ⟨_, _, h⟩ := h
+  replace h := bpeel h; obtain ⟨att, hat, h⟩ := h
+  replace h := bpeel h; obtain ⟨⟨s1, c1⟩, h1, h⟩ := h
+  replace h := bpeel h; obtain ⟨part, hpart, h⟩ := h
+  replace h := bpeel h; obtain ⟨⟨s2, boosted⟩, h2, h⟩ := h
+  replace h := bpeel h; obtain ⟨res, _, h⟩ := h
+  replace h := bpeel h; obtain ⟨sup, hsup, h⟩ := h
+  replace h := bpeel h; obtain ⟨s4, h4, h⟩ := h
+  replace h := bpeel h; obtain ⟨pen, hpen, h⟩ := h
+  replace h := bpeel h; obtain ⟨out, _, h⟩ := h
+  replace h := bpeel h; obtain ⟨s6, h6, h⟩ := h
+  replace h := bpeel h; obtain ⟨s7, h7, h⟩ := h
+  replace h := bpeel h; obtain ⟨s8, h8, h⟩ := h
+  simp only [Option.pure_def, Option.some.injEq, Prod.mk.injEq] at h
+  obtain ⟨rfl, _⟩ := h
+  have i0 := hI.toD.of_view (takePayments_plv h0)
+  have i1 := generate_poolInvD i0 h1
+  have i2 := claimBoostedYields_poolInvD i1 h2
+  have i3 : PoolInvD (decreaseOwner s2 att.owner a) (0 + boosted) := i2.of_view rfl
+  have i4 := setFarmSupplyWeek_poolInvD i3 h4
+  have i5 : PoolInvD (Cache.drop s4 { reserve := res, rps := c1.rps, supply := sup }) (0 + boosted) :=
+    i4.of_view rfl
+  have i6 := i5.of_view (removeFarming_plv h6)
+  have i7 := payReward_poolInvD i6 h7
+  exact (clearUserEnergyIfNeeded_poolInvD i7 h8).toInv
+
+theorem mergeFarmTokens_poolInv {s s' : St} {caller : Nat} {opt : Option Nat}
+    {pays : List (Nat × Nat)} {o : Out} (hI : PoolInv s)
+    (h : mergeFarmTokens s caller opt pays = some (s', o)) : PoolInv s' := by
+  simp only [mergeFarmTokens, Option.bind_eq_bind, Option.bind_eq_some_iff, req_eq_some,
+    Option.pure_def, Option.some.injEq, Prod.mk.injEq] at h
+  obtain ⟨_, hact, orig, _, _, _, s0, h0, ⟨s1, boosted⟩, h1, s2, h2, merged, hm, ⟨s3, n⟩, h3, s4, h4,
+    rfl, rfl⟩ := h
+  have i0 := hI.toD.of_view (takePayments_plv h0)
+  have i1 := claimOnlyBoostedPayment_poolInvD i0 h1
+  have i3 := (i1.of_view (checkAndUpdate_plv h2)).of_view (createToken_plv h3)
+  exact (payReward_poolInvD i3 h4).toInv
+
+theorem claimBoostedRewards_poolInv {s s' : St} {caller : Nat} {optUser : Option Nat} {o : Out}
+    (hI : PoolInv s) (h : claimBoostedRewards s caller optUser = some (s', o)) : PoolInv s' := by
+  simp only [claimBoostedRewards, Option.bind_eq_bind, Option.bind_eq_some_iff, req_eq_some,
+    Option.pure_def, Option.some.injEq, Prod.mk.injEq, sub?_eq_some] at h
+  obtain ⟨_, _, _, _, _, hact, ⟨s1, c1⟩, h1, ⟨s2, boosted⟩, h2, res, ⟨hle, rfl⟩, s3, h3, s4, h4,
+    rfl, rfl⟩ := h
+  have i1 := generate_poolInvD hI.toD h1
+  have i2 := claimBoostedYields_poolInvD i1 h2
+  have i3 := setFarmSupplyWeek_poolInvD i2 h3
+  exact ((payReward_poolInvD i3 h4).of_view (s' := Cache.drop s4 _) rfl).toInv
+
+/-! ### every reachable state -/
+
+theorem PoolInv.of_view {s s' : St} (hI : PoolInv s) (h : poolView s' = poolView s) : PoolInv s' :=
+  (hI.toD.of_view h).toInv
+
+theorem weekSum_const_zero (W : Nat) : weekSum (fun _ => 0) W = 0 :=
+  sum_map_zero (fun _ _ => rfl)
+
+theorem init_poolInv (kind : Kind) (sameTok : Bool) (dsc perBlock : Nat) (produce : Bool)
+    (users : List Nat) (e0 : Nat) : PoolInv (init kind sameTok dsc perBlock produce users e0) :=
+  ⟨Nat.le_refl _, fun _ _ _ _ _ => rfl, fun _ => rfl, fun _ _ _ _ => rfl,
+   fun W _ => by show weekSum (fun _ => 0) W + 0 = 0; rw [weekSum_const_zero],
+   fun W _ => weekSum_const_zero W, fun W _ => weekSum_const_zero W, Nat.zero_le _⟩
+
+theorem step_poolInv {s s' : St} {op : Op} {o : Out} (hI : PoolInv s)
+    (h : step s op = some (s', o)) : PoolInv s' := by
+  cases op <;> simp only [step, known] at h
+  case enter c oo a e =>
+    split at h <;> [skip; exact absurd h (by simp)]
+    simp only [enterFarm, Option.bind_eq_bind, Option.bind_eq_some_iff] at h
+    obtain ⟨_, _, h⟩ := h
+    exact enterCore_poolInv hI h
+  case enterOB c u a e =>
+    split at h <;> [skip; exact absurd h (by simp)]
+    simp only [enterFarmOnBehalf, Option.bind_eq_bind, Option.bind_eq_some_iff] at h
+    obtain ⟨_, _, _, _, h⟩ := h
+    exact enterCore_poolInv hI h
+  case claim c oo p =>
+    split at h <;> [skip; exact absurd h (by simp)]
+    simp only [claimRewards, Option.bind_eq_bind, Option.bind_eq_some_iff] at h
+    obtain ⟨_, _, h⟩ := h
+    exact claimCore_poolInv hI h
+  case claimOB c p =>
+    split at h <;> [skip; exact absurd h (by simp)]
+    simp only [claimRewardsOnBehalf, Option.bind_eq_bind, Option.bind_eq_some_iff] at h
+    obtain ⟨_, _, _, _, _, _, h⟩ := h
+    exact claimCore_poolInv hI h
+  case compound c oo p =>
+    split at h <;> [skip; exact absurd h (by simp)]
+    simp only [compoundRewards, Option.bind_eq_bind, Option.bind_eq_some_iff, req_eq_some] at h
+    obtain ⟨_, _, _, _, h⟩ := h
+    exact claimCore_poolInv hI h
+  case exit c oo n a =>
+    split at h <;> [skip; exact absurd h (by simp)]
+    exact exitFarm_poolInv hI h
+  case merge c oo p =>
+    split at h <;> [skip; exact absurd h (by simp)]
+    exact mergeFarmTokens_poolInv hI h
+  case claimBoosted c u =>
+    split at h <;> [skip; exact absurd h (by simp)]
+    exact claimBoostedRewards_poolInv hI h
+  case transfer a b n x =>
+    split at h <;> [skip; exact absurd h (by simp)]
+    split at h <;> [skip; exact absurd h (by simp)]
+    simp only [noOut, Option.map_eq_some_iff, Prod.mk.injEq] at h
+    obtain ⟨s1, h1, rfl, _⟩ := h
+    simp only [transfer, Option.bind_eq_bind, Option.bind_eq_some_iff, req_eq_some, sub?_eq_some,
+      Option.pure_def, Option.some.injEq] at h1
+    obtain ⟨_, _, _, _, _, _, _, _, rfl⟩ := h1
+    exact hI.of_view rfl
+  case setEnergy u a l t =>
+    simp only [Option.some.injEq, Prod.mk.injEq] at h
+    obtain ⟨rfl, _⟩ := h
+    exact hI.of_view rfl
+  case updateEnergy u =>
+    simp only [noOut, Option.map_eq_some_iff, Prod.mk.injEq] at h
+    obtain ⟨s1, h1, rfl, _⟩ := h
+    exact (updateEnergyForUser_poolInvD hI.toD h1).toInv
+  case setPerBlock c x =>
+    simp only [noOut, Option.map_eq_some_iff, Prod.mk.injEq] at h
+    obtain ⟨s1, h1, rfl, _⟩ := h
+    simp only [setPerBlock, Option.bind_eq_bind, Option.bind_eq_some_iff, Option.pure_def,
+      Option.some.injEq] at h1
+    obtain ⟨_, _, _, _, s2, h2, rfl⟩ := h1
+    exact (settle_poolInvD hI.toD h2).toInv.of_view rfl
+  case startProduce c =>
+    simp only [noOut, Option.map_eq_some_iff, Prod.mk.injEq] at h
+    obtain ⟨s1, h1, rfl, _⟩ := h
+    simp only [startProduce, Option.bind_eq_bind, Option.bind_eq_some_iff, Option.pure_def,
+      Option.some.injEq] at h1
+    obtain ⟨_, _, _, _, _, _, rfl⟩ := h1
+    exact hI.of_view rfl
+  case endProduce c =>
+    simp only [noOut, Option.map_eq_some_iff, Prod.mk.injEq] at h
+    obtain ⟨s1, h1, rfl, _⟩ := h
+    simp only [endProduce, Option.bind_eq_bind, Option.bind_eq_some_iff, Option.pure_def,
+      Option.some.injEq] at h1
+    obtain ⟨_, _, s2, h2, rfl⟩ := h1
+    exact (settle_poolInvD hI.toD h2).toInv.of_view rfl
+  case setPct c p =>
+    simp only [noOut, Option.map_eq_some_iff, Prod.mk.injEq] at h
+    obtain ⟨s1, h1, rfl, _⟩ := h
+    simp only [setPct, Option.bind_eq_bind, Option.bind_eq_some_iff, Option.pure_def,
+      Option.some.injEq, req_eq_some] at h1
+    obtain ⟨_, _, _, hp, s2, h2, rfl⟩ := h1
+    have i2 := settle_poolInvD hI.toD h2
+    exact ⟨i2.time, i2.rem, i2.week, i2.fut, i2.cut, i2.paid, i2.coll, hp⟩
+  case setFactors c f =>
+    simp only [noOut, Option.map_eq_some_iff, Prod.mk.injEq] at h
+    obtain ⟨s1, h1, rfl, _⟩ := h
+    simp only [setFactors, Option.bind_eq_bind, Option.bind_eq_some_iff, Option.pure_def] at h1
+    obtain ⟨_, _, _, _, W, _, h1⟩ := h1
+    split at h1
+    · simp only [Option.bind_eq_some_iff, Option.some.injEq] at h1
+      obtain ⟨c', _, rfl⟩ := h1
+      exact (hI.toD.of_b { s.b with cfg := some c' } rfl rfl rfl rfl rfl).toInv
+    · simp only [Option.some.injEq] at h1
+      subst h1
+      exact (hI.toD.of_b { s.b with cfg := some (BCfg.new W f) } rfl rfl rfl rfl rfl).toInv
+  case collect c =>
+    simp only [noOut, Option.map_eq_some_iff, Prod.mk.injEq] at h
+    obtain ⟨s1, h1, rfl, _⟩ := h
+    exact (collectUndistributed_poolInvD hI.toD h1).toInv
+  case pause c =>
+    simp only [noOut, Option.map_eq_some_iff, Prod.mk.injEq] at h
+    obtain ⟨s1, h1, rfl, _⟩ := h
+    simp only [setActive, Option.bind_eq_bind, Option.bind_eq_some_iff, Option.pure_def,
+      Option.some.injEq] at h1
+    obtain ⟨_, _, rfl⟩ := h1
+    exact hI.of_view rfl
+  case resume c =>
+    simp only [noOut, Option.map_eq_some_iff, Prod.mk.injEq] at h
+    obtain ⟨s1, h1, rfl, _⟩ := h
+    simp only [setActive, Option.bind_eq_bind, Option.bind_eq_some_iff, Option.pure_def,
+      Option.some.injEq] at h1
+    obtain ⟨_, _, rfl⟩ := h1
+    exact hI.of_view rfl
+  case setPenalty c p =>
+    simp only [noOut, Option.map_eq_some_iff, Prod.mk.injEq] at h
+    obtain ⟨s1, h1, rfl, _⟩ := h
+    simp only [setPenalty, Option.bind_eq_bind, Option.bind_eq_some_iff, Option.pure_def,
+      Option.some.injEq] at h1
+    obtain ⟨_, _, _, _, rfl⟩ := h1
+    exact hI.of_view rfl
+  case setMinEpochs c n =>
+    simp only [noOut, Option.map_eq_some_iff, Prod.mk.injEq] at h
+    obtain ⟨s1, h1, rfl, _⟩ := h
+    simp only [setMinEpochs, Option.bind_eq_bind, Option.bind_eq_some_iff, Option.pure_def,
+      Option.some.injEq] at h1
+    obtain ⟨_, _, _, _, rfl⟩ := h1
+    exact hI.of_view rfl
+  case hubWhitelist u a =>
+    split at h
+    · cases h
+    · simp only [Option.some.injEq, Prod.mk.injEq] at h; obtain ⟨rfl, _⟩ := h; exact hI.of_view rfl
+  case hubRemove u a =>
+    split at h
+    · simp only [Option.some.injEq, Prod.mk.injEq] at h; obtain ⟨rfl, _⟩ := h; exact hI.of_view rfl
+    · cases h
+  case hubBlacklist a =>
+    simp only [Option.some.injEq, Prod.mk.injEq] at h; obtain ⟨rfl, _⟩ := h; exact hI.of_view rfl
+  case scWhitelist a =>
+    split at h
+    · cases h
+    · simp only [Option.some.injEq, Prod.mk.injEq] at h; obtain ⟨rfl, _⟩ := h; exact hI.of_view rfl
+  case scUnwhitelist a =>
+    split at h
+    · simp only [Option.some.injEq, Prod.mk.injEq] at h; obtain ⟨rfl, _⟩ := h; exact hI.of_view rfl
+    · cases h
+  case advance b e =>
+    split at h
+    · rename_i hbe
+      simp only [Option.some.injEq, Prod.mk.injEq] at h; obtain ⟨rfl, _⟩ := h
+      exact (advance_poolInvD hI.toD b e hbe.2).toInv
+    · cases h
+  case bad => cases h
+
+theorem run_poolInv (ops : List Op) {s : St} (hI : PoolInv s) : PoolInv (run s ops) := by
+  induction ops generalizing s with
+  | nil => exact hI
+  | cons op rest ih =>
+    simp only [run, List.foldl_cons]
+    cases hs : step s op with
+    | none => exact ih hI
+    | some r => exact ih (step_poolInv hI (show step s op = some (r.1, r.2) from hs))
+
+/-- every state reachable from a fresh deployment satisfies the pool invariant -/
+theorem reachable_poolInv (kind : Kind) (sameTok : Bool) (dsc perBlock : Nat) (produce : Bool)
+    (users : List Nat) (e0 : Nat) (ops : List Op) :
+    PoolInv (run (init kind sameTok dsc perBlock produce users e0) ops) :=
+  run_poolInv ops (init_poolInv kind sameTok dsc perBlock produce users e0)
+
+/-- **where every generated reward is**: what still sits in the weekly pools (accumulated or
+    frozen and not yet paid), what was collected as undistributed, what was paid as boosted
+    rewards and the base share add up to everything ever generated -/
+theorem pools_eq {s : St} (hI : PoolInv s) {W : Nat} (hW : s.week = some W) :
+    weekSum (fun w => s.b.accum w + s.b.remaining w) W + s.undist + s.paidBoosted + s.baseBudget =
+      s.generated := by
+  have h1 : weekSum s.b.cutW W =
+      weekSum (fun w => s.b.accum w + s.b.remaining w) W + weekSum s.b.paidW W +
+        weekSum s.b.collW W := by
+    rw [← weekSum_add, ← weekSum_add]
+    exact weekSum_congr (fun w _ => (hI.week w).symm)
+  have := hI.cut W hW
+  rw [h1, hI.paid W hW, hI.coll W hW] at this
+  omega
+
 end Mx.Farm
